@@ -170,7 +170,17 @@ def replay_common(ctx, path, pid):
         return 1
     ctx.env = core.Env(pid)
     ctx.env.activate()
-    if "reanalysed_after_flag_deps" in rep:
+    shared = None
+    if rep.get("earlier_on_same_semantics"):
+        from osaca.semantics import ArchSemantics, MachineModel
+
+        mm = MachineModel(arch=rep["arch"])
+        shared = ArchSemantics(mm)
+        for lines, fd in rep["earlier_on_same_semantics"]:
+            dgcheck.Impl(rep["isa"], rep["arch"], lines, fd, mm, sem=shared)
+        print("(after %d earlier kernels on the same ArchSemantics object)" % len(rep["earlier_on_same_semantics"]))
+        im = dgcheck.Impl(rep["isa"], rep["arch"], rep["kernel"], rep.get("flag_deps", False), mm, sem=shared)
+    elif "reanalysed_after_flag_deps" in rep:
         im = dgcheck.Impl(rep["isa"], rep["arch"], rep["kernel"], rep["reanalysed_after_flag_deps"])
         im = im.reanalysed(rep.get("flag_deps", False), sub=rep.get("reanalysed_sub_range"))
         print("(second analysis of the same instruction-form objects)")
